@@ -118,7 +118,8 @@ pub fn generate(arm: &str, seed: u64, o: ArmOpts) -> Scenario {
         else if o.cut { let hi = if rng.chance(1, 2) { 12 } else { 60 }; CutPlan::At(1 + rng.below(hi)) } else { CutPlan::Never };
     let inst = Inst::new(table.clone());
     let mut primal = vec![];
-    if o.primal {
+    // warm start: always in the primal arms, and in one run out of five of the arms with a cutoff (primal x interruption)
+    if o.primal || ((o.cut || o.flaky_cut) && rng.chance(1, 5)) {
         if let Some(opt) = inst.opt() {
             // witnesses: complete feasible solutions with their value
             let mut sols = full_solutions(&inst);
